@@ -177,8 +177,9 @@ func (w *c01World) apply(op c01Op) bool {
 			df.endStream = true
 		} else {
 			// like http2Client.write / http2Server.write: the caller blocks while the
-			// stream's write quota is used up
-			if atomic.LoadInt32(&a.wq.quota) <= 0 {
+			// stream's write quota is used up (the quota of a stream that was already
+			// cleaned up is of no interest any more: the racing write is simply dropped)
+			if !ls.cleanupPut && atomic.LoadInt32(&a.wq.quota) <= 0 {
 				return false
 			}
 			h := make([]byte, 5)
@@ -207,8 +208,10 @@ func (w *c01World) apply(op c01Op) bool {
 			if w.side == serverSide {
 				df.onEachWrite = func() {}
 			}
-			if err := a.wq.get(int32(len(h) + op.n)); err != nil {
-				return false
+			if !ls.cleanupPut {
+				if err := a.wq.get(int32(len(h) + op.n)); err != nil {
+					return false
+				}
 			}
 		}
 		if df.endStream && !ls.cleanupPut {
@@ -656,10 +659,10 @@ func (w *c01World) key() string {
 		ab(ls.trailersSeen)
 		ai(int64(ls.rstAllowed))
 		ab(ls.trailersRst)
+		ab(ls.endPut) // these two gate the applicability of data ops, also for dead streams
+		ab(ls.trailersPut)
 		if led.live(ls) || (!ls.closed && !ls.rstSeen && !ls.trailersSeen && !ls.orphaned && !ls.aborted) {
-			ab(ls.endPut)
 			ab(ls.endSeen)
-			ab(ls.trailersPut)
 			ai(int64(ls.hdrSeen))
 			ai(led.win(ls))
 			ai(int64(ls.total - ls.sent))
